@@ -93,7 +93,7 @@ static htp_status_t htp_connp_req_receiver_send_data(htp_connp_t *connp, int is_
 
     htp_tx_data_t d;
     d.tx = connp->in_tx;
-    d.data = connp->in_current_data + connp->in_current_receiver_offset;
+    d.data = (connp->in_current_data == NULL) ? NULL : connp->in_current_data + connp->in_current_receiver_offset;
     d.len = connp->in_current_read_offset - connp->in_current_receiver_offset;
     d.is_last = is_last;
 
@@ -248,7 +248,8 @@ static htp_status_t htp_connp_req_buffer(htp_connp_t *connp) {
 static htp_status_t htp_connp_req_consolidate_data(htp_connp_t *connp, unsigned char **data, size_t *len) {
     if (connp->in_buf == NULL) {
         // We do not have any data buffered; point to the current data chunk.
-        *data = connp->in_current_data + connp->in_current_consume_offset;
+        // The chunk pointer is NULL when the stream is being closed.
+        *data = (connp->in_current_data == NULL) ? NULL : connp->in_current_data + connp->in_current_consume_offset;
         *len = connp->in_current_read_offset - connp->in_current_consume_offset;
     } else {
         // We already have some data in the buffer. Add the data from the current
